@@ -351,9 +351,17 @@ func (s *server) get(path string, v url.Values) result {
 		return result{Err: "transport: " + err.Error()}
 	}
 	defer resp.Body.Close()
-	b, _ := io.ReadAll(resp.Body)
+	// no generated query has more than 61 steps x a few dozen series: an answer beyond 4 MB is wrong whatever it says
+	// (seen: millions of bogus windows emitted from time 0); do not read, parse and print hundreds of megabytes
+	b, _ := io.ReadAll(io.LimitReader(resp.Body, maxAnswerBytes+1))
+	if len(b) > maxAnswerBytes {
+		return result{Err: oversizeErr}
+	}
 	return parsePromJSON(b)
 }
+
+const maxAnswerBytes = 4 << 20
+const oversizeErr = "answer larger than 4 MB"
 
 func (s *server) instant(db, expr string, tms int64) result {
 	return s.get("/api/v1/query", url.Values{"db": {db}, "query": {expr}, "time": {msToParam(tms)}})
